@@ -66,3 +66,567 @@ Proof. vm_compute. repeat split; reflexivity. Qed.
 Lemma empty_body_witness :
   lower w_empty_body = [mkfn [(3, TGoto 1); (1, TBr 1 2); (2, TRet)] None []].
 Proof. vm_compute. reflexivity. Qed.
+
+(* ====================================================================================== *)
+(* Unbounded invariant: in every reachable builder state the block ids are pairwise
+   distinct, below next_block_id, and different from the pending id; pre-allocated ids stay
+   available until their fixup.  Consequence: every lowered function of every program has an
+   entry block and pairwise distinct block ids. *)
+Scheme sexpr_ind' := Induction for sexpr Sort Prop
+  with sexprs_ind' := Induction for sexprs Sort Prop
+  with sstmt_ind' := Induction for sstmt Sort Prop
+  with sstmts_ind' := Induction for sstmts Sort Prop.
+Combined Scheme skel_mutind from sexpr_ind', sexprs_ind', sstmt_ind', sstmts_ind'.
+
+Lemma memN_In x l : memN x l = true <-> In x l.
+Proof.
+  unfold memN. rewrite existsb_exists. split.
+  - intros [y [Hy He]]. apply N.eqb_eq in He. subst. exact Hy.
+  - intro H. exists x. split; [exact H|apply N.eqb_refl].
+Qed.
+Lemma memN_false x l : memN x l = false <-> ~ In x l.
+Proof. rewrite <- memN_In. destruct (memN x l); split; congruence. Qed.
+
+Lemma nodupb_NoDup l : nodupb l = true <-> NoDup l.
+Proof.
+  induction l as [|x r IH]; cbn [nodupb].
+  - split; [constructor|reflexivity].
+  - rewrite andb_true_iff, negb_true_iff, memN_false, IH. split.
+    + intros [A B]. constructor; assumption.
+    + intro H. inversion H; subst. split; assumption.
+Qed.
+
+Definition ids (s : st) : list N := map fst (blocks s).
+Definition avail (s : st) (v : N) : Prop := v < next s /\ ~ In v (ids s) /\ pending s <> Some v.
+Definition U (s : st) : Prop :=
+  NoDup (ids s) /\ (forall v, In v (ids s) -> v < next s)
+  /\ (forall p, pending s = Some p -> p < next s /\ ~ In p (ids s)).
+Definition fn_ok (f : fn_out) : Prop := has_entry (f_blocks f) = true /\ unique_ids (f_blocks f) = true.
+Definition OutOK (s : st) : Prop := Forall fn_ok (out s).
+Definition stable (s s' : st) : Prop := forall v, v < next s -> avail s v -> avail s' v.
+Definition Step (s s' : st) : Prop := U s' /\ OutOK s' /\ next s <= next s' /\ stable s s'.
+
+Definition StepX (t : N) (s s' : st) : Prop :=
+  U s' /\ OutOK s' /\ next s' = next s /\ forall v, v <> t -> avail s v -> avail s' v.
+
+Ltac step_split := unfold Step, StepX; split; [|split; [|split]].
+
+Lemma Step_refl s : U s -> OutOK s -> Step s s.
+Proof. intros Hu Ho. step_split; try assumption; try lia. intros v _ Hv; exact Hv. Qed.
+
+Lemma Step_trans a b c : Step a b -> Step b c -> Step a c.
+Proof.
+  intros (Ub & Ob & L1 & S1) (Uc & Oc & L2 & S2). step_split; try assumption; try lia.
+  intros v Hv Ha. apply S2; [lia|]. apply S1; assumption.
+Qed.
+
+(* ---- primitive operations *)
+Lemma alloc_step s : U s -> OutOK s ->
+  Step s (snd (alloc s)) /\ fst (alloc s) = next s /\ next (snd (alloc s)) = next s + 1
+  /\ avail (snd (alloc s)) (fst (alloc s)).
+Proof.
+  intros (ND & LT & PD) O. unfold alloc; cbn [fst snd]. split; [|split; [|split]].
+  - step_split.
+    + split; [exact ND|split].
+      * intros v Hv. cbn. specialize (LT v Hv). lia.
+      * intros p Hp. cbn in *. destruct (PD p Hp). split; [lia|assumption].
+    + exact O.
+    + cbn. lia.
+    + intros v Hv (A & B & C). split; [cbn; lia|split; assumption].
+  - reflexivity.
+  - reflexivity.
+  - split; [cbn; lia|split].
+    + intro H. apply LT in H. lia.
+    + cbn. intro H. apply PD in H. lia.
+Qed.
+
+Lemma seal_step t s : U s -> OutOK s -> Step s (seal t s).
+Proof.
+  intros (ND & LT & PD) O. unfold seal. destruct (pending s) as [p|] eqn:Ep.
+  - destruct (PD p eq_refl) as [Hp Hn]. step_split.
+    + split; [|split].
+      * unfold ids; cbn. constructor; assumption.
+      * unfold ids; cbn. intros v [<-|Hv]; [assumption|apply LT; assumption].
+      * cbn. discriminate.
+    + exact O.
+    + cbn. lia.
+    + intros v Hv (A & B & C). split; [cbn; lia|split].
+      * unfold ids; cbn. intros [<-|H]; [apply C; exact Ep|apply B; exact H].
+      * cbn. discriminate.
+  - step_split.
+    + split; [|split].
+      * unfold ids; cbn. constructor; [|assumption]. intro H. apply LT in H. lia.
+      * unfold ids; cbn. intros v [<-|Hv]; [lia|apply LT in Hv; lia].
+      * cbn. discriminate.
+    + exact O.
+    + cbn. lia.
+    + intros v Hv (A & B & C). split; [cbn; lia|split].
+      * unfold ids; cbn. intros [<-|H]; [lia|apply B; exact H].
+      * cbn. discriminate.
+Qed.
+
+Lemma same_step s s' : U s -> OutOK s ->
+  blocks s' = blocks s -> next s' = next s -> pending s' = pending s -> out s' = out s -> Step s s'.
+Proof.
+  intros (ND & LT & PD) O Eb En Ep Eo. step_split.
+  - unfold U, ids. rewrite Eb, En, Ep. split; [|split]; assumption.
+  - unfold OutOK. rewrite Eo. exact O.
+  - lia.
+  - intros v Hv (A & B & C). unfold avail, ids. rewrite Eb, En, Ep. split; [|split]; assumption.
+Qed.
+
+Lemma emit_step s : U s -> OutOK s -> Step s (emit s).
+Proof. intros; apply same_step; auto. Qed.
+Lemma add_name_step x s : U s -> OutOK s -> Step s (add_name x s).
+Proof. intros; apply same_step; auto. Qed.
+Lemma push_step a b s : U s -> OutOK s -> Step s (push_loop a b s).
+Proof. intros; apply same_step; auto. Qed.
+Lemma pop_step s : U s -> OutOK s -> Step s (pop_loop s).
+Proof. intros; apply same_step; auto. Qed.
+
+(* fixup / noop consume an available id *)
+
+Lemma fixup_step t s : U s -> OutOK s -> avail s t -> StepX t s (fixup t s).
+Proof.
+  intros (ND & LT & PD) O (A & B & C). unfold fixup.
+  destruct (blocks s) as [|[old tm] r] eqn:Eb.
+  - step_split; [split; [|split]; assumption|exact O|reflexivity|intros v _ H; exact H].
+  - unfold ids in *. rewrite Eb in *. cbn [map fst] in *.
+    inversion ND as [|? ? Hold NDr]; subst.
+    step_split.
+    + split; [|split]; unfold ids; cbn.
+      * constructor; [|assumption]. intro H. apply B. right. exact H.
+      * intros v [<-|Hv]; [assumption|apply LT; right; assumption].
+      * intros p Hp. destruct (PD p Hp) as [P1 P2]. split; [exact P1|].
+        intros [<-|H']; [apply C; assumption|]. apply P2. right. assumption.
+    + exact O.
+    + reflexivity.
+    + intros v Hne (A' & B' & C'). split; [exact A'|split].
+      * unfold ids; cbn. intros [E|H]; [congruence|]. apply B'. unfold ids. rewrite Eb. right. exact H.
+      * exact C'.
+Qed.
+
+Lemma noop_step t s : U s -> OutOK s -> avail s t -> StepX t s (noop t s).
+Proof.
+  intros (ND & LT & PD) O (A & B & C). unfold noop. step_split.
+  - split; [|split]; unfold ids; cbn; try assumption.
+    intros p Hp. inversion Hp; subst. split; assumption.
+  - exact O.
+  - reflexivity.
+  - intros v Hne (A' & B' & C'). split; [exact A'|split; [exact B'|]]. cbn. congruence.
+Qed.
+
+(* a consumed id is >= the base of the enclosing construct, so outer ids stay available *)
+Lemma Step_X base t a b : Step base a -> StepX t a b -> next base <= t -> Step base b.
+Proof.
+  intros (Ua & Oa & L & S) (Ub & Ob & E & SX) Ht. step_split; try assumption; try lia.
+  intros v Hv Hav. apply SX; [lia|]. apply S; assumption.
+Qed.
+
+Lemma seal_unless_step t s : U s -> OutOK s -> Step s (seal_unless_terminated t s).
+Proof.
+  intros Hu O. unfold seal_unless_terminated. destruct (terminated s).
+  - apply Step_refl; assumption.
+  - apply seal_step; assumption.
+Qed.
+
+Lemma finalize_U s : U s -> OutOK s -> Step s (finalize s).
+Proof.
+  intros Hu O. unfold finalize. destruct (_ || _).
+  - apply seal_step; assumption.
+  - apply Step_refl; assumption.
+Qed.
+
+Lemma finalize_nonempty s : blocks (finalize s) <> [].
+Proof.
+  unfold finalize. destruct (dirty s) eqn:Ed; cbn.
+  - unfold seal. destruct (pending s); cbn; discriminate.
+  - destruct (blocks s) eqn:Eb; cbn.
+    + unfold seal. destruct (pending s); cbn; discriminate.
+    + rewrite Eb. discriminate.
+Qed.
+
+Lemma fn_enter_U c p s : OutOK s -> U (fn_enter c p s) /\ OutOK (fn_enter c p s).
+Proof.
+  intro O. split; [|exact O]. repeat split; cbn; try constructor; try contradiction; try discriminate.
+Qed.
+
+Lemma fn_exit_step saved body_end : U saved -> OutOK saved -> U body_end -> OutOK body_end ->
+  Step saved (fn_exit saved body_end).
+Proof.
+  intros Us Os Ub Ob.
+  destruct (finalize_U body_end Ub Ob) as (Uf & Of & _ & _).
+  pose proof (finalize_nonempty body_end) as Hne.
+  unfold fn_exit. set (f := finalize body_end) in *.
+  destruct Us as (ND & LT & PD).
+  step_split.
+  - split; [|split]; unfold ids; cbn; assumption.
+  - unfold OutOK; cbn. apply Forall_app. split; [exact Of|]. constructor; [|constructor].
+    split; cbn.
+    + destruct (blocks f) as [|b r] eqn:Eb; [congruence|].
+      cbn. destruct (rev r ++ [b]) eqn:E; [|reflexivity].
+      apply app_eq_nil in E. destruct E; discriminate.
+    + unfold unique_ids. apply nodupb_NoDup. rewrite map_map. cbn [fst].
+      rewrite map_rev. apply NoDup_rev. apply Uf.
+  - cbn. lia.
+  - intros v _ H. exact H.
+Qed.
+
+(* ---- composition with a list of consumed ids *)
+Definition StepL (l : list N) (s s' : st) : Prop :=
+  U s' /\ OutOK s' /\ next s <= next s' /\
+  forall v, v < next s -> ~ In v l -> avail s v -> avail s' v.
+
+Lemma StepL_Step s s' : Step s s' -> StepL [] s s'.
+Proof. intros (A & B & C & D). split; [|split; [|split]]; try assumption. intros v Hv _ H. apply D; assumption. Qed.
+Lemma StepL_StepX t s s' : StepX t s s' -> StepL [t] s s'.
+Proof.
+  intros (A & B & C & D). split; [|split; [|split]]; try assumption; try lia.
+  intros v Hv Hn H. apply D; [|assumption]. intro E. apply Hn. left. congruence.
+Qed.
+Lemma StepL_trans l1 l2 a b c : StepL l1 a b -> StepL l2 b c -> StepL (l1 ++ l2) a c.
+Proof.
+  intros (Ub & Ob & L1 & S1) (Uc & Oc & L2 & S2). split; [|split; [|split]]; try assumption; try lia.
+  intros v Hv Hn Ha. apply S2; [lia| |].
+  - intro H. apply Hn. apply in_or_app. right. exact H.
+  - apply S1; try assumption. intro H. apply Hn. apply in_or_app. left. exact H.
+Qed.
+Lemma StepL_close l s s' : StepL l s s' -> (forall v, In v l -> next s <= v) -> Step s s'.
+Proof.
+  intros (A & B & C & D) H. split; [|split; [|split]]; try assumption.
+  intros v Hv Ha. apply D; try assumption. intro Hi. apply H in Hi. lia.
+Qed.
+Lemma StepL_close' l base mid s' : Step base mid -> StepL l mid s' ->
+  (forall v, In v l -> next base <= v) -> Step base s'.
+Proof.
+  intros (Um & Om & Lm & Sm) (A & B & C & D) H. split; [|split; [|split]]; try assumption; try lia.
+  intros v Hv Ha. apply D; [lia| |apply Sm; assumption]. intro Hi. apply H in Hi. lia.
+Qed.
+Lemma StepL_U l s s' : StepL l s s' -> U s' /\ OutOK s'.
+Proof. intros (A & B & _). split; assumption. Qed.
+Lemma StepL_avail l s s' v : StepL l s s' -> avail s v -> ~ In v l -> avail s' v.
+Proof. intros (A & B & C & D) Ha Hn. apply D; try assumption. apply Ha. Qed.
+Lemma StepL_next l s s' : StepL l s s' -> next s <= next s'.
+Proof. intros (A & B & C & D). exact C. Qed.
+
+(* sequencing helper: extend a StepL chain by one piece *)
+Lemma chain_step l a b c : StepL l a b -> (U b -> OutOK b -> Step b c) -> StepL l a c.
+Proof.
+  intros H K. destruct (StepL_U _ _ _ H) as [Ub Ob].
+  replace l with (l ++ []) by apply app_nil_r.
+  eapply StepL_trans; [exact H|]. apply StepL_Step. apply K; assumption.
+Qed.
+Lemma chain_stepX l t a b c : StepL l a b -> avail a t -> ~ In t l ->
+  (U b -> OutOK b -> avail b t -> StepX t b c) -> StepL (l ++ [t]) a c.
+Proof.
+  intros H Ha Hn K. destruct (StepL_U _ _ _ H) as [Ub Ob].
+  eapply StepL_trans; [exact H|]. apply StepL_StepX. apply K; try assumption.
+  eapply StepL_avail; eassumption.
+Qed.
+
+Lemma alloc3 s : U s -> OutOK s ->
+  forall a s1 b s2 c s3, alloc s = (a, s1) -> alloc s1 = (b, s2) -> alloc s2 = (c, s3) ->
+  Step s s3 /\ a = next s /\ b = next s + 1 /\ c = next s + 2 /\ next s3 = next s + 3
+  /\ avail s3 a /\ avail s3 b /\ avail s3 c.
+Proof.
+  intros Hu Ho a s1 b s2 c s3 E1 E2 E3.
+  destruct (alloc_step s Hu Ho) as (T1 & A1 & N1 & V1). rewrite E1 in *. cbn [fst snd] in *.
+  destruct T1 as (U1 & O1 & L1 & S1).
+  destruct (alloc_step s1 U1 O1) as (T2 & A2 & N2 & V2). rewrite E2 in *. cbn [fst snd] in *.
+  destruct T2 as (U2 & O2 & L2 & S2).
+  destruct (alloc_step s2 U2 O2) as (T3 & A3 & N3 & V3). rewrite E3 in *. cbn [fst snd] in *.
+  destruct T3 as (U3 & O3 & L3 & S3).
+  split; [|split; [|split; [|split; [|split; [|split; [|split]]]]]]; try lia; try assumption.
+  - split; [|split; [|split]]; try assumption; try lia.
+    intros v Hv Ha. apply S3; [lia|]. apply S2; [lia|]. apply S1; assumption.
+  - apply S3; [lia|]. apply S2; [lia|]. exact V1.
+  - apply S3; [lia|]. exact V2.
+Qed.
+
+Lemma alloc4 s : U s -> OutOK s ->
+  forall a s1 b s2 c s3 d s4, alloc s = (a, s1) -> alloc s1 = (b, s2) -> alloc s2 = (c, s3) -> alloc s3 = (d, s4) ->
+  Step s s4 /\ a = next s /\ b = next s + 1 /\ c = next s + 2 /\ d = next s + 3 /\ next s4 = next s + 4
+  /\ avail s4 a /\ avail s4 b /\ avail s4 c /\ avail s4 d.
+Proof.
+  intros Hu Ho a s1 b s2 c s3 d s4 E1 E2 E3 E4.
+  destruct (alloc3 s Hu Ho _ _ _ _ _ _ E1 E2 E3) as (T & A1 & A2 & A3 & N3 & V1 & V2 & V3).
+  destruct T as (U3 & O3 & L3 & S3).
+  destruct (alloc_step s3 U3 O3) as (T4 & A4 & N4 & V4). rewrite E4 in *. cbn [fst snd] in *.
+  destruct T4 as (U4 & O4 & L4 & S4).
+  split; [|split; [|split; [|split; [|split; [|split; [|split; [|split; [|split]]]]]]]]; try lia; try assumption.
+  - split; [|split; [|split]]; try assumption; try lia.
+    intros v Hv Ha. apply S4; [lia|]. apply S3; assumption.
+  - apply S4; [lia|]. exact V1.
+  - apply S4; [lia|]. exact V2.
+  - apply S4; [lia|]. exact V3.
+Qed.
+
+Lemma alloc2 s : U s -> OutOK s ->
+  forall a s1 b s2, alloc s = (a, s1) -> alloc s1 = (b, s2) ->
+  Step s s2 /\ a = next s /\ b = next s + 1 /\ next s2 = next s + 2 /\ avail s2 a /\ avail s2 b.
+Proof.
+  intros Hu Ho a s1 b s2 E1 E2.
+  destruct (alloc_step s Hu Ho) as (T1 & A1 & N1 & V1). rewrite E1 in *. cbn [fst snd] in *.
+  destruct T1 as (U1 & O1 & L1 & S1).
+  destruct (alloc_step s1 U1 O1) as (T2 & A2 & N2 & V2). rewrite E2 in *. cbn [fst snd] in *.
+  destruct T2 as (U2 & O2 & L2 & S2).
+  split; [|split; [|split; [|split; [|split]]]]; try lia; try assumption.
+  - split; [|split; [|split]]; try assumption; try lia.
+    intros v Hv Ha. apply S2; [lia|]. apply S1; assumption.
+  - apply S2; [lia|]. exact V1.
+Qed.
+
+Definition Pe (e : sexpr) := forall s, U s -> OutOK s -> Step s (lower_expr e s).
+Definition Pes (e : sexprs) := forall s, U s -> OutOK s -> Step s (lower_exprs e s).
+Definition Ps (x : sstmt) := forall s, U s -> OutOK s -> Step s (lower_stmt x s).
+Definition Pss (x : sstmts) := forall s, U s -> OutOK s -> Step s (lower_stmts x s).
+
+Ltac notin := cbn [In app]; intuition lia.
+
+Lemma case_SIf c t : Pe c -> Ps t -> Ps (SIf c t).
+Proof.
+  intros IHc IHt s Hu Ho. cbn [lower_stmt].
+  pose proof (IHc s Hu Ho) as T1. set (s1 := lower_expr c s) in *.
+  destruct T1 as (U1 & O1 & L1 & S1).
+  destruct (alloc s1) as [th s2] eqn:E1. destruct (alloc s2) as [el s3] eqn:E2.
+  destruct (alloc s3) as [mg s4] eqn:E3.
+  destruct (alloc3 s1 U1 O1 _ _ _ _ _ _ E1 E2 E3) as (T & A1 & A2 & A3 & N4 & V1 & V2 & V3).
+  apply Step_trans with s1; [split; [|split; [|split]]; assumption|].
+  pose proof T as (U4 & O4 & _ & _).
+  eapply StepL_close' with (l := [th; mg]) (mid := s4); [exact T| |intros v [<-|[<-|[]]]; lia].
+  assert (C1 : StepL [] s4 (lower_stmt t (seal (TBr th mg) s4))).
+  { eapply chain_step; [apply StepL_Step; apply seal_step; assumption|]. intros; apply IHt; assumption. }
+  assert (C2 : StepL [] s4 (seal_unless_terminated (TGoto mg) (lower_stmt t (seal (TBr th mg) s4)))).
+  { eapply chain_step; [exact C1|]. intros; apply seal_unless_step; assumption. }
+  assert (C3 : StepL ([] ++ [th]) s4 (fixup th (seal_unless_terminated (TGoto mg) (lower_stmt t (seal (TBr th mg) s4))))).
+  { eapply chain_stepX; [exact C2|exact V1|notin|]. intros; apply fixup_step; assumption. }
+  change ([th; mg]) with (([] ++ [th]) ++ [mg]).
+  eapply chain_stepX; [exact C3|exact V3|notin|]. intros; apply noop_step; assumption.
+Qed.
+
+Lemma Step_then a b c : Step a b -> (U b -> OutOK b -> Step b c) -> Step a c.
+Proof. intros H K. eapply Step_trans; [exact H|]. destruct H as (X & Y & _). apply K; assumption. Qed.
+
+Tactic Notation "plain" hyp(C) uconstr(lem) :=
+  let C' := fresh "C" in pose proof (chain_step _ _ _ _ C lem) as C'.
+Ltac start s U O lem := let C' := fresh "C" in
+  pose proof (chain_step [] s s _ (StepL_Step _ _ (Step_refl s U O)) lem) as C'.
+
+Lemma case_SIfElse c t e : Pe c -> Ps t -> Ps e -> Ps (SIfElse c t e).
+Proof.
+  intros IHc IHt IHe s Hu Ho. cbn [lower_stmt].
+  pose proof (IHc s Hu Ho) as T1. set (s1 := lower_expr c s) in *.
+  pose proof T1 as (U1 & O1 & _ & _).
+  destruct (alloc s1) as [th s2] eqn:E1. destruct (alloc s2) as [el s3] eqn:E2.
+  destruct (alloc s3) as [mg s4] eqn:E3.
+  destruct (alloc3 s1 U1 O1 _ _ _ _ _ _ E1 E2 E3) as (T & A1 & A2 & A3 & N4 & V1 & V2 & V3).
+  pose proof T as (U4 & O4 & _ & _).
+  eapply Step_trans; [exact T1|].
+  eapply StepL_close' with (l := [th; el; mg]) (mid := s4); [exact T| |intros v [<-|[<-|[<-|[]]]]; lia].
+  start s4 U4 O4 (seal_step (TBr th el) s4).
+  plain C (IHt (seal (TBr th el) s4)).
+  plain C0 (seal_unless_step (TGoto mg) (lower_stmt t (seal (TBr th el) s4))).
+  pose proof (chain_stepX _ th _ _ _ C1 V1 ltac:(notin) (fixup_step th _)) as C2.
+  plain C2 (IHe (fixup th (seal_unless_terminated (TGoto mg) (lower_stmt t (seal (TBr th el) s4))))).
+  plain C3 (seal_unless_step (TGoto mg) (lower_stmt e (fixup th (seal_unless_terminated (TGoto mg) (lower_stmt t (seal (TBr th el) s4)))))).
+  pose proof (chain_stepX _ el _ _ _ C4 V2 ltac:(notin) (fixup_step el _)) as C5.
+  pose proof (chain_stepX _ mg _ _ _ C5 V3 ltac:(notin) (noop_step mg _)) as C6.
+  exact C6.
+Qed.
+
+Lemma case_SWhile c b : Pe c -> Ps b -> Ps (SWhile c b).
+Proof.
+  intros IHc IHb s Hu Ho. cbn [lower_stmt].
+  destruct (alloc s) as [hd s1] eqn:E1. destruct (alloc s1) as [bd s2] eqn:E2.
+  destruct (alloc s2) as [ex s3] eqn:E3.
+  destruct (alloc3 s Hu Ho _ _ _ _ _ _ E1 E2 E3) as (T & A1 & A2 & A3 & N4 & V1 & V2 & V3).
+  pose proof T as (U3 & O3 & _ & _).
+  eapply StepL_close' with (l := [hd; bd; ex]) (mid := s3); [exact T| |intros v [<-|[<-|[<-|[]]]]; lia].
+  start s3 U3 O3 (seal_step (TGoto hd) s3).
+  plain C (IHc _).
+  plain C0 (seal_step (TBr bd ex) _).
+  pose proof (chain_stepX _ hd _ _ _ C1 V1 ltac:(notin) (fixup_step hd _)) as C2.
+  plain C2 (push_step hd ex _).
+  plain C3 (IHb _).
+  plain C4 (seal_unless_step (TGoto hd) _).
+  pose proof (chain_stepX _ bd _ _ _ C5 V2 ltac:(notin) (fixup_step bd _)) as C6.
+  plain C6 (pop_step _).
+  pose proof (chain_stepX _ ex _ _ _ C7 V3 ltac:(notin) (noop_step ex _)) as C8.
+  exact C8.
+Qed.
+
+Lemma case_SFor n lo hi stp b : Pe lo -> Pe hi -> Pe stp -> Ps b -> Ps (SFor n lo hi stp b).
+Proof.
+  intros IHlo IHhi IHst IHb s Hu Ho. cbn [lower_stmt].
+  assert (T0 : Step s (emit (lower_expr hi (emit (lower_expr lo (add_name n s)))))).
+  { eapply Step_then; [apply add_name_step; assumption|]. intros.
+    eapply Step_then; [apply IHlo; assumption|]. intros.
+    eapply Step_then; [apply emit_step; assumption|]. intros.
+    eapply Step_then; [apply IHhi; assumption|]. intros. apply emit_step; assumption. }
+  set (s2 := emit (lower_expr hi (emit (lower_expr lo (add_name n s))))) in *.
+  pose proof T0 as (U2 & O2 & _ & _).
+  destruct (alloc s2) as [hd s3] eqn:E1. destruct (alloc s3) as [bd s4] eqn:E2.
+  destruct (alloc s4) as [inc s5] eqn:E3. destruct (alloc s5) as [ex s6] eqn:E4.
+  destruct (alloc4 s2 U2 O2 _ _ _ _ _ _ _ _ E1 E2 E3 E4) as (T & A1 & A2 & A3 & A4 & N4 & V1 & V2 & V3 & V4).
+  pose proof T as (U6 & O6 & _ & _).
+  eapply Step_trans; [exact T0|].
+  eapply StepL_close' with (l := [hd; bd; inc; ex]) (mid := s6); [exact T| |intros v [<-|[<-|[<-|[<-|[]]]]]; lia].
+  start s6 U6 O6 (seal_step (TGoto hd) s6).
+  plain C (emit_step _).
+  plain C0 (seal_step (TBr bd ex) _).
+  pose proof (chain_stepX _ hd _ _ _ C1 V1 ltac:(notin) (fixup_step hd _)) as C2.
+  plain C2 (push_step inc ex _).
+  plain C3 (IHb _).
+  plain C4 (seal_unless_step (TGoto inc) _).
+  pose proof (chain_stepX _ bd _ _ _ C5 V2 ltac:(notin) (fixup_step bd _)) as C6.
+  plain C6 (pop_step _).
+  plain C7 (IHst _).
+  plain C8 (emit_step _).
+  plain C9 (seal_step (TGoto hd) _).
+  pose proof (chain_stepX _ inc _ _ _ C10 V3 ltac:(notin) (fixup_step inc _)) as C11.
+  pose proof (chain_stepX _ ex _ _ _ C11 V4 ltac:(notin) (noop_step ex _)) as C12.
+  exact C12.
+Qed.
+
+Lemma case_SForEach n it b : Pe it -> Ps b -> Ps (SForEach n it b).
+Proof.
+  intros IHit IHb s Hu Ho. cbn [lower_stmt].
+  assert (T0 : Step s (add_name n (emit (lower_expr it s)))).
+  { eapply Step_then; [apply IHit; assumption|]. intros.
+    eapply Step_then; [apply emit_step; assumption|]. intros. apply add_name_step; assumption. }
+  set (s1 := add_name n (emit (lower_expr it s))) in *.
+  pose proof T0 as (U1 & O1 & _ & _).
+  destruct (alloc s1) as [hd s3] eqn:E1. destruct (alloc s3) as [bd s4] eqn:E2.
+  destruct (alloc s4) as [inc s5] eqn:E3. destruct (alloc s5) as [ex s6] eqn:E4.
+  destruct (alloc4 s1 U1 O1 _ _ _ _ _ _ _ _ E1 E2 E3 E4) as (T & A1 & A2 & A3 & A4 & N4 & V1 & V2 & V3 & V4).
+  pose proof T as (U6 & O6 & _ & _).
+  eapply Step_trans; [exact T0|].
+  eapply StepL_close' with (l := [hd; bd; inc; ex]) (mid := s6); [exact T| |intros v [<-|[<-|[<-|[<-|[]]]]]; lia].
+  start s6 U6 O6 (seal_step (TGoto hd) s6).
+  plain C (emit_step _).
+  plain C0 (seal_step (TBr bd ex) _).
+  pose proof (chain_stepX _ hd _ _ _ C1 V1 ltac:(notin) (fixup_step hd _)) as C2.
+  plain C2 (emit_step _).
+  plain C3 (push_step inc ex _).
+  plain C4 (IHb _).
+  plain C5 (seal_unless_step (TGoto inc) _).
+  pose proof (chain_stepX _ bd _ _ _ C6 V2 ltac:(notin) (fixup_step bd _)) as C7.
+  plain C7 (pop_step _).
+  plain C8 (emit_step _).
+  plain C9 (seal_step (TGoto hd) _).
+  pose proof (chain_stepX _ inc _ _ _ C10 V3 ltac:(notin) (fixup_step inc _)) as C11.
+  pose proof (chain_stepX _ ex _ _ _ C11 V4 ltac:(notin) (noop_step ex _)) as C12.
+  exact C12.
+Qed.
+
+Lemma case_EShort a l r : Pe l -> Pe r -> Pe (EShort a l r).
+Proof.
+  intros IHl IHr s Hu Ho. cbn [lower_expr].
+  assert (T0 : Step s (emit (lower_expr l s))).
+  { eapply Step_then; [apply IHl; assumption|]. intros. apply emit_step; assumption. }
+  set (s1 := emit (lower_expr l s)) in *.
+  pose proof T0 as (U1 & O1 & _ & _).
+  destruct (alloc s1) as [er s2] eqn:E1. destruct (alloc s2) as [mg s3] eqn:E2.
+  destruct (alloc2 s1 U1 O1 _ _ _ _ E1 E2) as (T & A1 & A2 & N3 & V1 & V2).
+  pose proof T as (U3 & O3 & _ & _).
+  eapply Step_trans; [exact T0|].
+  eapply StepL_close' with (l := [er; mg]) (mid := s3); [exact T| |intros v [<-|[<-|[]]]; lia].
+  start s3 U3 O3 (seal_step (if a then TBr er mg else TBr mg er) s3).
+  plain C (IHr _).
+  plain C0 (emit_step _).
+  plain C1 (seal_step (TGoto mg) _).
+  pose proof (chain_stepX _ er _ _ _ C2 V1 ltac:(notin) (fixup_step er _)) as C3.
+  pose proof (chain_stepX _ mg _ _ _ C3 V2 ltac:(notin) (noop_step mg _)) as C4.
+  exact C4.
+Qed.
+
+Lemma case_EIfE c t e : Pe c -> Pe t -> Pe e -> Pe (EIfE c t e).
+Proof.
+  intros IHc IHt IHe s Hu Ho. cbn [lower_expr].
+  pose proof (IHc s Hu Ho) as T1. set (s1 := lower_expr c s) in *.
+  pose proof T1 as (U1 & O1 & _ & _).
+  destruct (alloc s1) as [th s2] eqn:E1. destruct (alloc s2) as [el s3] eqn:E2.
+  destruct (alloc s3) as [mg s4] eqn:E3.
+  destruct (alloc3 s1 U1 O1 _ _ _ _ _ _ E1 E2 E3) as (T & A1 & A2 & A3 & N4 & V1 & V2 & V3).
+  pose proof T as (U4 & O4 & _ & _).
+  eapply Step_trans; [exact T1|].
+  eapply StepL_close' with (l := [th; el; mg]) (mid := s4); [exact T| |intros v [<-|[<-|[<-|[]]]]; lia].
+  start s4 U4 O4 (seal_step (TBr th el) s4).
+  plain C (IHt _).
+  plain C0 (emit_step _).
+  plain C1 (seal_step (TGoto mg) _).
+  pose proof (chain_stepX _ th _ _ _ C2 V1 ltac:(notin) (fixup_step th _)) as C3.
+  plain C3 (IHe _).
+  plain C4 (emit_step _).
+  plain C5 (seal_step (TGoto mg) _).
+  pose proof (chain_stepX _ el _ _ _ C6 V2 ltac:(notin) (fixup_step el _)) as C7.
+  pose proof (chain_stepX _ mg _ _ _ C7 V3 ltac:(notin) (noop_step mg _)) as C8.
+  exact C8.
+Qed.
+
+Lemma case_fn caps params body s : Pss body -> U s -> OutOK s ->
+  Step s (fn_exit s (lower_stmts body (fn_enter caps params s))).
+Proof.
+  intros IH Hu Ho. destruct (fn_enter_U caps params s Ho) as [Ue Oe].
+  destruct (IH _ Ue Oe) as (Ub & Ob & _ & _).
+  apply fn_exit_step; assumption.
+Qed.
+
+Theorem lower_steps :
+  (forall e, Pe e) /\ (forall e, Pes e) /\ (forall x, Ps x) /\ (forall x, Pss x).
+Proof.
+  apply skel_mutind.
+  - intros s Hu Ho. apply Step_refl; assumption.
+  - intros x s Hu Ho. cbn [lower_expr]. destruct (memN x (names s)); [apply Step_refl|apply emit_step]; assumption.
+  - intros em args IH s Hu Ho. cbn [lower_expr]. destruct em.
+    + eapply Step_then; [apply IH; assumption|]. intros; apply emit_step; assumption.
+    + apply IH; assumption.
+  - intros a l IHl r IHr. apply case_EShort; assumption.
+  - intros c IHc t IHt e IHe. apply case_EIfE; assumption.
+  - intros caps params body IH s Hu Ho. cbn [lower_expr].
+    apply Step_then with (b := fn_exit s (lower_stmts body (fn_enter caps params s)));
+      [apply case_fn; assumption|]. intros; apply emit_step; assumption.
+  - intros s Hu Ho. apply Step_refl; assumption.
+  - intros e IHe r IHr s Hu Ho. cbn [lower_exprs].
+    eapply Step_then; [apply IHe; assumption|]. intros; apply IHr; assumption.
+  - intros e IH s Hu Ho. apply IH; assumption.
+  - intros x e IH s Hu Ho. cbn [lower_stmt].
+    eapply Step_then; [apply add_name_step; assumption|]. intros.
+    eapply Step_then; [apply IH; assumption|]. intros; apply emit_step; assumption.
+  - intros b IH s Hu Ho. apply IH; assumption.
+  - intros c IHc t IHt. apply case_SIf; assumption.
+  - intros c IHc t IHt e IHe. apply case_SIfElse; assumption.
+  - intros c IHc b IHb. apply case_SWhile; assumption.
+  - intros x lo IHlo hi IHhi stp IHst b IHb. apply case_SFor; assumption.
+  - intros x it IHit b IHb. apply case_SForEach; assumption.
+  - intros s Hu Ho. apply seal_step; assumption.
+  - intros e IH s Hu Ho. cbn [lower_stmt].
+    eapply Step_then; [apply IH; assumption|]. intros; apply seal_step; assumption.
+  - intros s Hu Ho. cbn [lower_stmt]. destruct (loops s) as [|[h e] r]; [apply Step_refl|apply seal_step]; assumption.
+  - intros s Hu Ho. cbn [lower_stmt]. destruct (loops s) as [|[h e] r]; [apply Step_refl|apply seal_step]; assumption.
+  - intros caps params body IH s Hu Ho. cbn [lower_stmt]. apply case_fn; assumption.
+  - intros s Hu Ho. apply Step_refl; assumption.
+  - intros s Hu Ho. apply Step_refl; assumption.
+  - intros x IHx r IHr s Hu Ho. cbn [lower_stmts].
+    eapply Step_then; [apply IHx; assumption|]. intros; apply IHr; assumption.
+Qed.
+
+Lemma lower_top_ok p : forall s, U s -> OutOK s -> U (lower_top p s) /\ OutOK (lower_top p s).
+Proof.
+  induction p as [|x r IH].
+  - intros s Hu Ho. split; assumption.
+  - intros s Hu Ho. cbn [lower_top]. destruct x; try (apply IH; assumption).
+    destruct (case_fn caps params body s (proj2 (proj2 (proj2 lower_steps)) body) Hu Ho) as (A & B & _).
+    apply IH; assumption.
+Qed.
+
+(* every lowered function has an entry block and pairwise distinct block ids: for ALL programs *)
+Theorem lower_entry_and_unique_ids :
+  forall p f, In f (lower p) -> has_entry (f_blocks f) = true /\ unique_ids (f_blocks f) = true.
+Proof.
+  intros p f Hin. unfold lower in Hin.
+  assert (Hi : U init /\ OutOK init).
+  { split; [|constructor]. split; [constructor|split]; cbn; [contradiction|discriminate]. }
+  destruct (lower_top_ok p init (proj1 Hi) (proj2 Hi)) as [_ Ho].
+  unfold OutOK in Ho. rewrite Forall_forall in Ho. apply Ho. exact Hin.
+Qed.
